@@ -556,3 +556,13 @@ Proof.
   rewrite app_length. cbn [length].
   replace (pos + S (length ws + S (length mid))) with (pos + length ws + 1 + length mid + 1) by lia. reflexivity.
 Qed.
+
+(** * Verbatim *)
+Lemma find_sub_char dc text r : mem_c dc text = false -> find_sub (text ++ dc :: r) [dc] = Some (length text).
+Proof.
+  induction text as [|c text IH]; intros H.
+  - cbn [app find_sub startswith length]. rewrite N.eqb_refl. destruct r; reflexivity.
+  - cbn [mem_c existsb] in H. apply orb_false_iff in H. destruct H as [H1 H2].
+    cbn [app find_sub startswith length]. rewrite H1. cbn [andb].
+    change (existsb (N.eqb dc) text) with (mem_c dc text) in H2. rewrite (IH H2). reflexivity.
+Qed.
